@@ -81,6 +81,13 @@ def handle : Handler
       | none => do
         let f ← f3 name
         run3 f m w u v
+  | "as4_sqrt", [.num m, .num wa, .num wv, .num ua, .num uv] => do
+      let w ← mk? wa wv; let u ← mk? ua uv
+      let s := heap w u u
+      match m with
+      | 0 => some (match mpz_sqrt s 0 1 with | none => [.err "sqrtneg"] | some s' => outW s' 0)
+      | 1 => some (match mpz_sqrt s 1 1 with | none => [.err "sqrtneg"] | some s' => outW s' 1)
+      | _ => none
   | name, [.num m, .num wa, .num wv, .num ua, .num uv, .num k] => do
       let f ← fui name
       if !(0 ≤ k && k < (B : Int)) then none else
